@@ -51,8 +51,15 @@ def generate(seed, tier):
         for t in s["tokens"]:
             if t[0] and t[0][-1].isdigit():
                 t[0] = t[0] + "a"
-            if rng.random() < 0.15:
+            r = rng.random()
+            if r < 0.12:
                 t[0] = t[0][:1].upper() + t[0][1:]
+            elif r < 0.18:
+                t[0] = t[0].upper()                      # USA
+            elif r < 0.22 and len(t[0]) > 2:
+                t[0] = t[0][:1].upper() + t[0][1:2] + t[0][2:3].upper() + t[0][3:]   # McDonald
+            elif r < 0.25:
+                t[0] = t[0][:1] + t[0][1:].upper()       # iPHONE
     mode = None
     if rng.random() < 0.6:
         mode = c08.gen_mode(rng)
